@@ -215,6 +215,48 @@ def judgeLine (line : String) : String :=
       | _ => "bad-obs"
   | _ => "bad-line"
 
+/-- `step` mode: the model's observation of every call when each call starts from the state the
+    CRATE was observed in after the previous call (register dump, shadow dump, chip-select
+    level).  A divergence in one call therefore does not propagate into the comparison of the
+    following calls.  Quiet cases (no dumps) fall back to the sequential run. -/
+def stepLine (line : String) : String :=
+  match line.splitOn "\t" with
+  | [cl, ol] =>
+    match parseCase cl with
+    | none => "bad-case " ++ cl
+    | some c =>
+      if c.quiet then runCase c
+      else
+        let secs := ol.splitOn " | "
+        match secs with
+        | id :: first :: rest =>
+          match parseObs first, rest.mapM parseObs with
+          | some o0, some os =>
+            let chip0 := Chip.powerOn (fun a => c.low.getD a 0#8) c.pos c.neg c.fifo c.dummy
+            let (j0, w0, out0) := runCtor c.dev (failsOf c.ctorFaults) chip0 c.ctor
+            let firstM := fmtObs c.quiet j0 w0 out0
+            let t := c.ctor.transport c.dev
+            let prevs := o0 :: os
+            let outs := (c.ops.zip prevs).map (fun (p : (Op × List Nat) × Obs) =>
+              let prev := p.2
+              match prev.chip, prev.shadow with
+              | some regs, some sh =>
+                let chip : Chip := { regs := regs, pos := c.pos, neg := c.neg, fifo := c.fifo, csHigh := prev.csHigh,
+                                     spiMode := true, dummy := c.dummy }
+                let w : World := { chip := chip, shadow := sh }
+                let (j, w', o) := runOp t (failsOf p.1.2) w p.1.1
+                let ca := toArray w'.chip.regs
+                let sa := toArray w'.shadow
+                let w'' := { w' with chip := { w'.chip with regs := ofArray ca }, shadow := ofArray sa }
+                fmtObs c.quiet j w'' o
+              | _, _ => "nodump")
+            -- only as many calls as the crate completed
+            let outs := outs.take os.length
+            " | ".intercalate (id :: firstM :: outs)
+          | _, _ => s!"{id} bad-obs"
+        | _ => "bad-obs"
+  | _ => "bad-line"
+
 def fmtAcc : Acc → String
   | .wr a v ok => s!"W{hexNat2 a}={hexByte v}{if ok then "" else "!"}"
   | .rd a n ok => s!"R{hexNat2 a}:{n}{if ok then "" else "!"}"
